@@ -1,3 +1,4 @@
+CONSTANT RetryFresh = FALSE
 INIT Init
 NEXT Next
-INVARIANTS Plumbing Exact HardFail Reproduces Emit
+INVARIANTS Plumbing Recorded Exact HardFail Reproduces Emit
